@@ -4,7 +4,8 @@ From Flocq Require Import Raux.
 From Alator Require Import Model.Num Model.Quirks Model.Cost Model.Exchange Model.Uist Model.Server
   Model.Broker Model.Perf Model.Strategy
   Proofs.ServerProofs Proofs.BrokerLedgerProofs Proofs.BrokerLiqProofs Proofs.UistProofs
-  Proofs.ExchangeProofs Proofs.ExchangeCorollaries Proofs.StrategyProofs.
+  Proofs.ExchangeProofs Proofs.ExchangeCorollaries Proofs.StrategyProofs Proofs.EndToEnd16
+  Model.Penelope Proofs.PenelopeProofs Proofs.EndToEndCor.
 Import ListNotations.
 Local Existing Instance RNum.
 
@@ -185,6 +186,92 @@ Theorem c16_withdraw_value :
          (worth price (st_brkr s) - (if snd (st_withdraw s c) then c else 0))%R.
 Proof. exact @st_withdraw_worth. Qed.
 
+(* [R] END TO END, one update of the full composition (strategy + broker + eager client + Uist server + Uist exchange) on a dataset with constant zero-spread prices: the system invariant (the broker stores only such quotes, holds only quoted symbols, every order of its backtest still in the exchange is for a quoted symbol) is preserved, cash + sum of price x holding is unchanged, and the one snapshot recorded shows exactly that figure — whatever the weights, costs, hash orders and sort oracle; gaps (dates without a row, symbols coming and going) included. *)
+Theorem c16_update_keeps_worth :
+  forall (price : string -> R) (y : sys R) (perm : list nat) (ord : list string)
+           (y' : sys R),
+         sys_inv price y ->
+         sys_update clean y perm ord = Ok y' ->
+         sys_inv price y' /\
+         worth price (st_brkr (sy_strat y')) = worth price (st_brkr (sy_strat y)) /\
+         (exists sn : snapshot R,
+            st_history (sy_strat y') = st_history (sy_strat y) ++ [sn] /\
+            sn_value sn = worth price (st_brkr (sy_strat y))).
+Proof. exact @sys_update_const. Qed.
+
+(* [R] … hence for the whole run(): every snapshot it records shows the worth the system had when it started. *)
+Theorem c16_run_keeps_worth :
+  forall (price : string -> R) (fuel : nat) (y : sys R) (perms : nat -> list nat)
+           (ords : nat -> list string) (i : nat) (y' : sys R) (n : nat),
+         sys_inv price y ->
+         sys_run clean fuel y perms ords i = Ok (y', n) ->
+         sys_inv price y' /\
+         (exists new : list (snapshot R),
+            st_history (sy_strat y') = st_history (sy_strat y) ++ new /\
+            Forall (fun sn : snapshot R => sn_value sn = worth price (st_brkr (sy_strat y))) new).
+Proof. exact @sys_run_const. Qed.
+
+(* [R] END TO END from a fresh start: a strategy over a broker that has seen the first date's quotes, init(c), run() on an N-date dataset with constant zero-spread prices: exactly N updates, N snapshots, EVERY snapshot's portfolio value equals the cash deposited c. *)
+Theorem c16_constant_prices_end_to_end :
+  forall (price : string -> R) (a : uapp) (id : N) (b : backtest (uexch R))
+           (d : dataset (quotes (quote R))) (costs : list (cost R)) (q0 : smap (quote R))
+           (ws : list (string * R)) (c : R) (ord0 : list string) (s1 : strategy R)
+           (fw : list (uorder R)) (fuel : nat) (perms : nat -> list nat)
+           (ords : nat -> list string) (y' : sys R) (n : nat),
+         SInv a ->
+         nlookup (backtests a) id = Some b ->
+         slookup (datasets a) (bt_dataset b) = Some d ->
+         clock_ok d b 0 ->
+         bt_exch b = exch_init ->
+         dataset_const price d ->
+         quotes_const price q0 ->
+         let s0 :=
+           {|
+             st_brkr := broker_init costs q0; st_weights := ws; st_ncf := 0%R; st_history := []
+           |} in
+         st_init clean s0 c ord0 = Ok (s1, fw) ->
+         sys_run clean fuel {| sy_strat := s1; sy_app := forward clean a id fw; sy_id := id |}
+           perms ords 0 = Ok (y', n) ->
+         n = Datatypes.length (ds_dates d) /\
+         Datatypes.length (st_history (sy_strat y')) = Datatypes.length (ds_dates d) /\
+         Forall (fun sn : snapshot R => sn_value sn = c) (st_history (sy_strat y')).
+Proof. exact @c16_constant_prices_end_to_end. Qed.
+
+(* [R] … and with plain withdrawals interleaved between updates every snapshot shows the deposit minus the successful withdrawals so far. *)
+Theorem c16_constant_prices_with_withdrawals :
+  forall (price : string -> R) (a : uapp) (id : N) (b : backtest (uexch R))
+           (d : dataset (quotes (quote R))) (costs : list (cost R)) (q0 : smap (quote R))
+           (ws : list (string * R)) (c : R) (ord0 : list string) (s1 : strategy R)
+           (fw : list (uorder R)) (pre : list yop) (y1 : sys R) (perm : list nat)
+           (ord : list string) (y2 : sys R),
+         SInv a ->
+         nlookup (backtests a) id = Some b ->
+         slookup (datasets a) (bt_dataset b) = Some d ->
+         clock_ok d b 0 ->
+         bt_exch b = exch_init ->
+         dataset_const price d ->
+         quotes_const price q0 ->
+         let s0 :=
+           {|
+             st_brkr := broker_init costs q0; st_weights := ws; st_ncf := 0%R; st_history := []
+           |} in
+         let y0 := {| sy_strat := s1; sy_app := forward clean a id fw; sy_id := id |} in
+         st_init clean s0 c ord0 = Ok (s1, fw) ->
+         yrun y0 pre = Ok y1 ->
+         sys_update clean y1 perm ord = Ok y2 ->
+         exists sn : snapshot R,
+           st_history (sy_strat y2) = st_history (sy_strat y1) ++ [sn] /\
+           sn_value sn = (c - ywithdrawn y0 pre)%R.
+Proof. exact @c16_constant_prices_with_withdrawals. Qed.
+
+(* [R] The dataset premise holds of every Penelope loaded with bid = ask = price(symbol) on every add_quote call. *)
+Theorem c16_dataset_constant_when_loaded_so :
+  forall (price : string -> R) (calls : list (R * R * Z * string)),
+         (forall (b a : R) (d : Z) (s : string),
+          In (b, a, d, s) calls -> a = price s /\ b = price s) ->
+         dataset_const price (load calls).
+Proof. exact @load_dataset_const. Qed.
+
 (* Refuted for the code as it was: deposit_cash did net_cash_flow += net_cash_flow, so the figure stayed 0 whatever was deposited. *)
 Theorem c16_refuted_q_strategy_ncf_self_add :
   forall (F : Type) (NF : Num F) (s : strategy F) (cash : F) (qk : quirks),
@@ -207,4 +294,9 @@ Print Assumptions c16_trading_creates_no_value.
 Print Assumptions c16_booking_creates_no_value.
 Print Assumptions c16_init_value.
 Print Assumptions c16_withdraw_value.
+Print Assumptions c16_update_keeps_worth.
+Print Assumptions c16_run_keeps_worth.
+Print Assumptions c16_constant_prices_end_to_end.
+Print Assumptions c16_constant_prices_with_withdrawals.
+Print Assumptions c16_dataset_constant_when_loaded_so.
 Print Assumptions c16_refuted_q_strategy_ncf_self_add.
